@@ -307,7 +307,7 @@ def case_history(ctx, case):
         ctx.count('big_systems', k)
     pool = rng.sample(PRIOS, rng.randint(2, 4))        # few levels -> forced repeats
     from vlib import reps
-    names = [reps.as_str(rng, f's{j}', allow_enum=False) for j in range(k)]      # identifiers may be instances of str subclasses
+    names = [reps.as_str(rng, n_, allow_enum=False) for n_ in reps.odd_ids(rng, 's', k, 0.35 if not big else 0.0)]      # str-subclass instances; ids that look like patterns / are not unicode-normalised
     P = lambda v: reps.as_int(rng, v)          # noqa: priorities may arrive as numpy integers
     for d in drivers:
         d.objs = {}
